@@ -335,6 +335,24 @@ static MeshGL64 tetPairsMesh(int pairs, bool share) {
   return m;
 }
 
+// STL-like triangle soup: every triangle of Sphere(n) gets its own three
+// vertices, jittered by less than the merge tolerance (so cluster members are
+// equal only within tolerance, not bit-equal).  6 * n^2/... open vertices.
+static MeshGL64 soupMesh(int n, double tol, double jitter) {
+  MeshGL64 s = Manifold::Sphere(1.0, n).GetMeshGL64();
+  MeshGL64 g;
+  g.numProp = 3;
+  g.tolerance = tol;
+  Lcg r{99};
+  for (size_t t = 0; t < s.triVerts.size(); ++t) {
+    const uint64_t v = s.triVerts[t];
+    for (int k = 0; k < 3; ++k)
+      g.vertProperties.push_back(s.vertProperties[v * s.numProp + k] + (r.next() - 0.5) * jitter);
+    g.triVerts.push_back(t);
+  }
+  return g;
+}
+
 static void runProgram(const std::string& kind, double a, double b, double c,
                        Out& o) {
   const int n = static_cast<int>(a);
@@ -447,6 +465,14 @@ static void runProgram(const std::string& kind, double a, double b, double c,
     o.add("numTri", m.NumTri());
     o.add("genus", static_cast<uint64_t>(static_cast<int64_t>(m.Genus())));
     hashMesh(o, "", m);
+  } else if (kind == "soup") {  // MeshGL::Merge on a triangle soup, then import
+    MeshGL64 g = soupMesh(n, b, c);
+    const bool changed = g.Merge();
+    o.add("merged", changed);
+    o.add("mergeFrom", hvec(g.mergeFromVert));
+    o.add("mergeTo", hvec(g.mergeToVert));
+    Manifold m(g);
+    hashMesh(o, "m.", m);
   } else if (kind == "dedupe") {
     Manifold m(sharedEdgeMesh(n));
     hashMesh(o, "", m);
